@@ -541,6 +541,11 @@ func TestC03_QiSpend(t *testing.T) {
 	})
 }
 
+// fpHybrid: a TxIn.PubKey that btcec parses but crypto.UnmarshalPubkey refuses (hybrid SEC
+// encoding) makes Transaction.ProtoEncode fail; ProtoEncodeTxSigningData and Hash() drop the
+// error, so the signing hash no longer covers the inputs and the transaction hash is a constant.
+const fpHybrid = "C03/qi/hybrid-pubkey-unencodable"
+
 // hybridPub re-encodes an uncompressed public key in the "hybrid" SEC format (prefix 6 or 7
 // carrying the parity of Y). btcec.ParsePubKey accepts it and the address derivation ignores
 // the prefix byte, so it names the same key and the same owner address.
@@ -593,26 +598,27 @@ func TestC03_QiPubkeyEncoding(t *testing.T) {
 			d["mutantSigningHash"] = qiDigest(tx, tx.ChainId(), loc).Hex()
 			return d
 		}
-		mustReject := func(name string, tx *types.Transaction, nodeChain *big.Int, ref *types.Transaction, fpClass string, labels ...string) {
+		mustReject := func(name string, tx *types.Transaction, nodeChain *big.Int, ref *types.Transaction, fp string, labels ...string) {
 			stats.Case(part, fmt.Sprintf("%s/%s/%s", s.kind, multi, name), true, append(labels, "mutant", multi)...)
 			if err := s.env.process(tx, nodeChain, first); err == nil {
-				stats.Violation(t, part, "C03/qi/hybrid-pubkey/"+fpClass+"/process-accepts",
-					fmt.Sprintf("ProcessQiTx(checkSig=true) accepted the %s mutant of a %s/%s spend", name, s.kind, multi), dump(name, tx, "accepted by ProcessQiTx"))
+				stats.Violation(t, part, fp, fmt.Sprintf("ProcessQiTx(checkSig=true) accepted the %s mutant of a %s/%s spend", name, s.kind, multi), dump(name, tx, "accepted by ProcessQiTx"))
 			}
 			if err := s.env.poolValidate(tx, nodeChain); err == nil {
-				stats.Violation(t, part, "C03/qi/hybrid-pubkey/"+fpClass+"/pool-accepts",
-					fmt.Sprintf("pool validation accepted the %s mutant of a %s/%s spend", name, s.kind, multi), dump(name, tx, "accepted by pool validation"))
+				stats.Violation(t, part, fp, fmt.Sprintf("ValidateQiTxInputs+ValidateQiTxOutputsAndSignature accepted the %s mutant of a %s/%s spend", name, s.kind, multi), dump(name, tx, "accepted by pool validation"))
 			}
-			if ref != nil && tx.Hash() == ref.Hash() {
-				stats.Violation(t, part, "C03/qi/hybrid-pubkey/hash-collision",
-					fmt.Sprintf("the %s mutant has the same transaction hash %x as the transaction it was derived from", name, ref.Hash()), dump(name, tx, "hash collision"))
+			if tx.Hash() == ref.Hash() {
+				stats.Violation(t, part, fp, fmt.Sprintf("the %s mutant has the same transaction hash %x as the transaction it was derived from (pool sender cache key)", name, ref.Hash()), dump(name, tx, "hash collision"))
 			}
 		}
 
 		// (1) re-encoded keys under the ORIGINAL signature: a mutant of the valid spend
-		mustReject("pubenc/hybrid-keepsig", mkQiTx(s.chainID, hyIns, s.outs, s.data, s.sig), s.chainID, s.tx, "keepsig", "keepsig")
+		mustReject("pubenc/hybrid-keepsig", mkQiTx(s.chainID, hyIns, s.outs, s.data, s.sig), s.chainID, s.tx, "C03/qi/hybrid-pubkey-keepsig", "keepsig")
 
 		// (2) the owners sign the re-encoded form themselves
+		if stats.IsKnown(fpHybrid) {
+			stats.Excluded(fpHybrid) // known finding: this class is accepted with unsigned inputs and a constant hash
+			return
+		}
 		unsigned := mkQiTx(s.chainID, hyIns, s.outs, s.data, nil)
 		hsig, err := signQi(owners, qiDigest(unsigned, s.chainID, loc), s.nonceSeed)
 		if err != nil {
@@ -636,22 +642,19 @@ func TestC03_QiPubkeyEncoding(t *testing.T) {
 		i := rapid.IntRange(0, len(hyIns)-1).Draw(t, "mutIn")
 		ins := append(types.TxIns{}, hyIns...)
 		ins[i].PreviousOutPoint = s.ins[i].decoy
-		mustReject("hybrid/in-swap-decoy", mkQiTx(s.chainID, ins, s.outs, s.data, hsig), s.chainID, h, "input-unsigned", "h_in")
+		mustReject("hybrid/in-swap-decoy", mkQiTx(s.chainID, ins, s.outs, s.data, hsig), s.chainID, h, fpHybrid, "h_in")
 
 		ins = append(append(types.TxIns{}, hyIns...), types.TxIn{PreviousOutPoint: s.ins[i].decoy, PubKey: hyIns[i].PubKey})
-		if len(hyIns) == 1 {
-			// one key -> two keys changes the verification key; with >= 2 inputs the key list changes too
-		}
-		mustReject("hybrid/in-add-decoy", mkQiTx(s.chainID, ins, s.outs, s.data, hsig), s.chainID, h, "input-unsigned", "h_in")
+		mustReject("hybrid/in-add-decoy", mkQiTx(s.chainID, ins, s.outs, s.data, hsig), s.chainID, h, fpHybrid, "h_in")
 
 		if len(s.outs) > 0 {
 			j := rapid.IntRange(0, len(s.outs)-1).Draw(t, "mutOut")
 			outs := append(types.TxOuts{}, s.outs...)
 			outs[j].Address = s.uniqAddr(t, *common.AddressBytes(outs[j].Address).Location(), outs[j].Address[1]&0x80 != 0, "thiefAddr")
-			mustReject("hybrid/out-addr-redirect", mkQiTx(s.chainID, hyIns, outs, s.data, hsig), s.chainID, h, "output", "h_out")
+			mustReject("hybrid/out-addr-redirect", mkQiTx(s.chainID, hyIns, outs, s.data, hsig), s.chainID, h, fpHybrid, "h_out")
 		}
 		other := otherChainID(t, s.chainID, "otherChain")
-		mustReject("hybrid/chainid-relabel@other", mkQiTx(other, hyIns, s.outs, s.data, hsig), other, h, "chainid", "h_chainid")
+		mustReject("hybrid/chainid-relabel@other", mkQiTx(other, hyIns, s.outs, s.data, hsig), other, h, fpHybrid, "h_chainid")
 
 		// a third party's UTXO under an arbitrary signature: refused here because the signature
 		// is checked, but block processing skips that check for hashes found in the pool's
@@ -664,6 +667,6 @@ func TestC03_QiPubkeyEncoding(t *testing.T) {
 		}
 		vins := append(types.TxIns{}, hyIns...)
 		vins[0] = types.TxIn{PreviousOutPoint: vop, PubKey: hybridPub(victim.pub65)}
-		mustReject("hybrid/in-victim-utxo", mkQiTx(s.chainID, vins, s.outs, s.data, hsig), s.chainID, h, "victim", "h_victim")
+		mustReject("hybrid/in-victim-utxo", mkQiTx(s.chainID, vins, s.outs, s.data, hsig), s.chainID, h, fpHybrid, "h_victim")
 	})
 }
